@@ -7,6 +7,7 @@ Monitor: out = min(target+offset, in-maxloss) computed independently from the ca
 """
 import copy
 import math
+from collections import Counter as Counter_
 
 import numpy as np
 
@@ -14,7 +15,7 @@ from common.util import Result, f2b, b2f, fl, err_kind
 from common import nets
 
 ID = 'C06'
-N = {'quick': 900, 'thorough': 40000}
+N = {'quick': 3000, 'thorough': 120000}
 LEAN_MODULES = ['GnpyProofs.Props.C06']
 THEOREMS = [f'Gnpy.Roadm.{t}' for t in (
     'absMinOrZero_eq_max', 'chanOutDbm_eq_min', 'chanOut_dbm', 'deltaPower_nonneg', 'never_amplifies',
@@ -48,11 +49,42 @@ def _val(rng, kind, zero_ok=True):
 
 def gen(rng, tier, widen=False):
     k = rng.random()
-    if k < 0.6:
+    if k < 0.55:
         return gen_crossing(rng, tier, widen)
-    if k < 0.8:
+    if k < 0.7:
         return gen_loader(rng)
-    return gen_populate(rng)
+    if k < 0.85:
+        return gen_populate(rng)
+    return gen_path(rng)
+
+
+def gen_path(rng):
+    """a whole designed network: star of 2-3 degrees around R0 (optionally the library ROADM with add/drop/express
+    max-loss profiles), per-degree overrides on R0, a mixed-rate spectrum launched T_src -> T_dst through
+    request.propagate: every ROADM crossing of the path is judged (add at the first, express/drop later)."""
+    k = rng.choice([2, 3])
+    kind = rng.choice(POL)
+    node = {kind: _val(rng, kind)}
+    per = {p: {} for p in POL}
+    for i in range(1, k + 1):
+        if rng.random() < 0.5:
+            pk = rng.choice(POL)
+            per[pk][f'f R0-R{i}'] = _val(rng, pk)
+    ends = rng.sample(range(0, k + 1), 2)
+    nch = rng.choice([1, 2, 4, 9])
+    bauds = [rng.choice([32e9, 64e9, 42e9]) for _ in range(nch)]
+    slots = [math.ceil(b / 12.5e9 + rng.choice([0, 1, 2])) * 12.5e9 for b in bauds]
+    f = 191.6e12
+    freqs = []
+    for sl in slots:
+        f += sl / 2 + rng.choice([0, 0, 12.5e9, 50e9])
+        freqs.append(f)
+        f += sl / 2
+    return {'kind': 'path', 'k': k, 'node': node, 'per': per, 'src': f'T{ends[0]}', 'dst': f'T{ends[1]}',
+            'detailed': rng.random() < 0.5, 'freq': freqs, 'baud': bauds, 'slot': slots,
+            'offset': [rng.choice([0.0, 0.0, 1.5, -2.0, 3.0]) for _ in range(nch)],
+            'tx_dbm': [rng.choice([0.0, -5.0, 3.0, -25.0, -40.0]) for _ in range(nch)],
+            'span_km': rng.choice([20.0, 60.0, 90.0])}
 
 
 def gen_crossing(rng, tier, widen):
@@ -146,7 +178,100 @@ def _mk_roadm(case):
 
 
 def run(case, drv):
-    return {'crossing': run_crossing, 'loader': run_loader, 'populate': run_populate}[case['kind']](case, drv)
+    return {'crossing': run_crossing, 'loader': run_loader, 'populate': run_populate,
+            'path': run_path}[case['kind']](case, drv)
+
+
+def run_path(case, drv):
+    from gnpy.core.elements import Roadm, Transceiver
+    from gnpy.core.info import Carrier
+    from gnpy.core.utils import dbm2watt, watt2dbm
+    from gnpy.tools.json_io import network_from_json
+    from gnpy.tools.worker_utils import designed_network
+    from gnpy.topology.request import PathRequest, compute_constrained_path, propagate
+    from gnpy.core.equipment import trx_mode_params
+    res = Result()
+    params = {KEY[p]: v for p, v in case['node'].items()}
+    for p in POL:
+        if case['per'][p]:
+            params[PKEY[p]] = dict(case['per'][p])
+    topo = nets.star(case['k'], roadm_params=params, span_km=case['span_km'])
+    if case['detailed']:
+        for e in topo['elements']:
+            if e['type'] == 'Roadm':
+                e['type_variety'] = 'detailed_impairments'
+    eq = nets.eqpt()
+    net = network_from_json(topo, eq)
+    net, _, _ = designed_network(eq, net)
+    rp = {'request_id': 'r', 'trx_type': '', 'trx_mode': '', 'source': case['src'], 'destination': case['dst'],
+          'bidir': False, 'nodes_list': [case['dst']], 'loose_list': ['STRICT'], 'format': '', 'path_bandwidth': 0,
+          'effective_freq_slot': None, 'nb_channel': len(case['freq']), 'power': 1e-3, 'tx_power': 1e-3}
+    rp.update(trx_mode_params(eq))
+    req = PathRequest(**rp)
+    req.initial_spectrum = {f: Carrier(delta_pdb=o, baud_rate=b, slot_width=sl, roll_off=0.15, tx_osnr=40.0,
+                                       tx_power=float(dbm2watt(t)), label='x')
+                            for f, o, b, sl, t in zip(case['freq'], case['offset'], case['baud'], case['slot'],
+                                                      case['tx_dbm'])}
+    path = compute_constrained_path(net, req)
+    log = []
+    orig = Roadm.propagate
+
+    def spy(self, spectral_info, degree, from_degree):
+        before = spectral_info.pch.copy()
+        orig(self, spectral_info, degree=degree, from_degree=from_degree)
+        log.append((self, degree, from_degree, before, spectral_info.pch.copy(),
+                    spectral_info.baud_rate.copy(), spectral_info.slot_width.copy(),
+                    spectral_info.delta_pdb_per_channel.copy(), spectral_info.frequency.copy()))
+    Roadm.propagate = spy
+    try:
+        propagate(path, req, eq)
+    finally:
+        Roadm.propagate = orig
+    roadms = [(i, el) for i, el in enumerate(path) if isinstance(el, Roadm)]
+    res.cmp_exact('request.propagate: one ROADM call per ROADM of the path', len(log), len(roadms))
+    ML = {'add': 11.5, 'drop': 11.5, 'express': 16.5}
+    types = Counter_()
+    for (i, el), (r, degree, from_degree, pin, pout, baud, slot, off, freq) in zip(roadms, log):
+        nxt, prv = path[i + 1], path[i - 1]
+        ptype = 'add' if isinstance(prv, Transceiver) else ('drop' if isinstance(nxt, Transceiver) else 'express')
+        types[ptype] += 1
+        ml = ML[ptype] if case['detailed'] else 0.0
+        # correspondence on the whole crossing, with the degree the PATH dictates (next element's uid)
+        if r.uid == 'R0':
+            node, per = case['node'], case['per']
+        else:
+            node, per = {'pch': -20.0} if not case['detailed'] else {'pch': -20.0}, {p: {} for p in POL}
+        ans = drv.ask('c06.propagate', p=fl(pin), maxloss=fl([ml] * len(pin)), offset=fl(off), baud=fl(baud),
+                      slot=fl(slot), degree=nxt.uid, node=_node_json(node), per=_per_json(per),
+                      ref_in=f2b(r.ref_pch_in_dbm[prv.uid]), ref_baud=f2b(r.ref_carrier.baud_rate),
+                      ref_slot=f2b(r.ref_carrier.slot_width))
+        res.cmp_floats(f'Roadm.propagate.pch[{ptype}]', pout, [b2f(x) for x in ans['out']])
+        # monitor (independent arithmetic)
+        for c in range(len(pin)):
+            if nxt.uid in per['pch']:
+                t = per['pch'][nxt.uid]
+            elif nxt.uid in per['psd']:
+                t = 10 * math.log10(baud[c] * per['psd'][nxt.uid] * 1e-9)
+            elif nxt.uid in per['psw']:
+                t = 10 * math.log10(slot[c] * per['psw'][nxt.uid] * 1e-9)
+            elif 'pch' in node:
+                t = node['pch']
+            elif 'psd' in node:
+                t = 10 * math.log10(baud[c] * node['psd'] * 1e-9)
+            else:
+                t = 10 * math.log10(slot[c] * node['psw'] * 1e-9)
+            in_dbm = 10 * math.log10(pin[c] * 1e3)
+            exp = min(t + off[c], in_dbm - ml)
+            got = 10 * math.log10(pout[c] * 1e3)
+            if abs(got - exp) > 1e-6:
+                res.fail(f'egress power on a path: {ptype} crossing of {r.uid} towards {nxt.uid}, channel {c} leaves at '
+                         f'{got:.6f} dBm, min(target+offset, in-loss) = {exp:.6f} dBm', crossing=ptype)
+            if pout[c] > pin[c] * (1 + 1e-9):
+                res.fail(f'amplifies on a path: {r.uid} channel {c}')
+    res.nontrivial = len(log) >= 2
+    res.stats.update({'path': 1, 'path_detailed_impairments': int(case['detailed'])})
+    res.stats.update({f'path_crossing_{k}': v for k, v in types.items()})
+    return res
 
 
 def run_crossing(case, drv):
@@ -348,6 +473,19 @@ def shrink_candidates(case):
             c = copy.deepcopy(case)
             c['ranges'] = None
             yield c
+        for p in POL:
+            for d in list(case['per'][p]):
+                c = copy.deepcopy(case)
+                del c['per'][p][d]
+                yield c
+    elif case['kind'] == 'path':
+        n = len(case['freq'])
+        for i in range(n):
+            if n > 1:
+                c = copy.deepcopy(case)
+                for k in ('freq', 'baud', 'slot', 'offset', 'tx_dbm'):
+                    del c[k][i]
+                yield c
         for p in POL:
             for d in list(case['per'][p]):
                 c = copy.deepcopy(case)
